@@ -29,7 +29,11 @@ def run_witness(unit, failed_ids, seed, timeout=900):
             if not m:
                 raise RuntimeError('witness extra_inject anchor not found')
             pos = txt.rfind('\n', 0, m.start()) + 1 if ex.get('before') else m.end()
-            txt = txt[:pos] + ex['text'] + txt[pos:]
+            ins = ex.get('text')
+            if ins is None:
+                with open(os.path.join(unit_dir, ex['text_file'])) as tf:
+                    ins = tf.read()
+            txt = txt[:pos] + ins + txt[pos:]
             open(tp, 'w').write(txt)
         with open(os.path.join(dst, cfg['inject_into']), 'a') as f:
             f.write(f"\n#[cfg(test)]\n#[allow(unused, dead_code)]\nmod verif_witness_{unit.replace('-', '_')} {{\n    use super::*;\n{body}\n}}\n")
